@@ -722,10 +722,8 @@ theorem HRel.add {d : Doc} {M : LModel} (H : HRel d.kids d.handles M)
     HRel (addParagraph d).kids (addParagraph d).handles M.addp := by
   have hlen : (terminateLastLine d.kids).length = d.kids.length := by
     have := congrArg List.length hsig; simpa using this
-  have hcnt : (d.kids.filter Node.isNode).length = d.kids.length := by
-    rw [List.filter_eq_self.2 hnodes]
   have H' := H.congr hsig.symm
-  generalize hsep : (if d.kids.length > 0 then [emptyLine] else ([] : List DNode)) = sep
+  generalize hsep : (if (d.kids.filter Node.isNode).length > 0 then [emptyLine] else ([] : List DNode)) = sep
   have hsepnp : ∀ c ∈ sep, isParaNode c = false := by
     intro c hc; rw [← hsep] at hc
     split at hc
@@ -736,8 +734,8 @@ theorem HRel.add {d : Doc} {M : LModel} (H : HRel d.kids d.handles M)
   simp only [List.take_length, List.drop_length, List.append_nil] at this
   have hordl : (slots (terminateLastLine d.kids) 0).length = M.order.length := H'.order_len.symm
   rw [hordl, insertIdx_take_drop _ _ _ (Nat.le_refl _), List.take_length, List.drop_length] at this
-  simp only [addParagraph, insertEmptyParagraph, insertAt, hcnt, hsep, LModel.addp]
-  rw [← hlen, List.take_length, List.drop_length, H.len]
+  simp only [addParagraph, insertEmptyParagraph, insertAt, hsep, LModel.addp]
+  rw [List.take_length, List.drop_length, H.len]
   have e1 : 1 + sep.length = (sep ++ [Node.node Kind.PARAGRAPH []]).length := by simp; omega
   rw [e1]
   simpa [items, entries, Node.children] using this
